@@ -97,6 +97,21 @@ needs.update({
  "C07-n2": ("CORRELOGRAMPSD silently raises NFFT to 2*lag+1 when NFFT <= lag", "pcorrelogram with NFFT <= lag < N"),
  "C07-n3": ("the only effective 'complex data cannot be onesided' assertion removed from get_converted_psd", "complex data, computed PSD, sides='onesided' (lossy fold), then sides='twosided' or 'centerdc'"),
 })
+
+needs.update({
+ "C06-o1": ("Range.centerdc_gen built from fftshift(fftfreq(N)) with the sample spacing forgotten", "sampling != 1 together with the centerdc representation"),
+ "C06-o2": ("psd getter clears the modified flag before computing (a failing refresh leaves the object marked up to date)", "PSD stored as centerdc, NFFT changed, a refresh that raises, the cause repaired through a plain attribute, further use"),
+ "C06-o3": ("onesided_2_twosided tests `if even is True`", "the helper called with the parity flag as a numpy bool or the integer 1 and an even target length"),
+ "C06-p1": ("`if even is True` in the helper plus NFFT='nextpow2' computed as 2 ** n (a numpy integer, so NFFT % 2 == 0 is a numpy bool)", "real data, NFFT='nextpow2', then any conversion away from onesided"),
+ "C06-p2": ("onesided_2_twosided splits x into x/2 and x - x/2 (inf - inf = nan)", "a stored one-sided PSD with an infinite interior value"),
+ "C06-p3": ("centred axis via fftshift(fftfreq(N)) without the sample spacing", "sampling != 1 and use of the centerdc axis"),
+ "C07-o1": ("pyule caches its AR fit under (id(self.data), order, norm): CPython re-uses the address of a released copy", "pyule, computed PSD, data assigned twice in a row with no read in between and no long-lived allocation in between"),
+ "C07-o2": ("datatype decided by value (isreal(data).all()) while the kernel decides by dtype", "Periodogram and a complex-dtype array whose imaginary part is identically zero"),
+ "C07-o3": ("'nextpow2' derived from Range.N (the current NFFT) instead of the data length", "NFFT='nextpow2' assigned after another NFFT value or after a data-length change; the object stays self-consistent"),
+ "C07-p1": ("plot(norm=True) normalises the cached PSD in place", "plot(norm=True) with sides omitted or equal to the current one, then a psd read"),
+ "C07-p2": ("'nextpow2' derived from the wrong private copy (same as C07-o3, other author)", "NFFT='nextpow2' assigned later; only the comparison with a fresh object built with NFFT='nextpow2' differs"),
+ "C07-p3": ("a 'scale only once' flag re-armed in the psd getter only, not on explicit p() / p.run()", "scale_by_freq=True and a second explicit computation on the same object, then a read"),
+})
 res = json.load(open('/verif/seeded/RESULTS.json'))
 for sid, (mech, need) in needs.items():
     d = '/verif/seeded/' + sid
